@@ -517,6 +517,7 @@ func (s *Server) Exec(op *Op, hist map[string][]int64, opIndex int) {
 		if res.code == 200 {
 			r.Body = j.B(res.body)
 			r.Henc = j.S(res.header.Get("Content-Encoding"))
+			r.Hcd = j.S(res.header.Get("Content-Disposition"))
 			r.Hgen = atoi64(res.header.Get("X-Goog-Generation"))
 			r.Hmetagen = atoi64(res.header.Get("X-Goog-Metageneration"))
 			r.Hctype = j.S(res.header.Get("Content-Type"))
